@@ -542,7 +542,7 @@ def obs_equal(a: dict, b: dict):
     return diff_json({k: v for k, v in a.items() if k != "upd"}, {k: v for k, v in b.items() if k != "upd"})
 
 
-def collect_caps(rng, position, negative=False):
+def collect_caps(rng, position, negative=False, exact=True):
     """a (cap0, cap1, class) choice for collect_fee(max_collect_amount0/1): each cap independently None (= all), exactly 0 (= nothing),
     below / exactly at / above the pending amount of ITS token, and a value between the two pending amounts (a cap compared with the other
     token's pending amount is the slip this exposes); negative caps only where the caller judges rejections"""
@@ -555,6 +555,10 @@ def collect_caps(rng, position, negative=False):
                 (mine * 3 + 1, "above"), ((mine + other) / 2 if mine != other else mine + Decimal("0.5"), "between")]
         if negative:
             opts.append((Decimal(-1), "negative"))
+        if not exact:
+            # a cap exactly equal to what is pending decides whether the emptied position is dropped: two pools whose pending amounts agree to
+            # 1e-12 (not to the last digit) land on different sides of that tie, which says nothing about either pool
+            opts = [o for o in opts if o[1] != "exact"] + [(mine * Decimal("0.999"), "just-below")]
         return rng.choice(opts)
     (c0, k0), (c1, k1) = one(0), one(1)
     return c0, c1, f"{k0}/{k1}"
